@@ -37,7 +37,9 @@ RULE = (
     "the ellipse equation is taken from the docstring example circle_kernel(1, 2, 3) and the code (decision recorded: no conflict with the "
     "statement); everything else (0/1 mask of the ellipse equation, flip symmetry, odd shape, outer minus centred inner, never negative) is "
     "from the statement. The oracle evaluates radius*factor/cellsize in exact rationals; when that quotient lies within 4 eps of an integer "
-    "and the double evaluation is not exact, either neighbouring half-width is accepted and the case is counted as ambiguous. Cases where the "
+    "and the double evaluation is not exact, either neighbouring half-width is accepted and the case is counted as ambiguous - unless the radius "
+    "is a whole multiple n of the cell size as written in decimal (1 over 0.1-wide cells) and the rounded double quotient lies in [n, n+1): then n "
+    "is required. Cases where the "
     "un-truncated (real semi-axes) reading would give another mask are labelled real_axes_reading_differs. "
     "Non-trivial: metric cases with >= 2 non-coincident points; kernels with half_w != half_h; every rejection / string / cellsize case with "
     "a unit, res attr or non-square cell; distinct by SHA-1 of the case or enumeration index.")
@@ -282,6 +284,12 @@ def _half_widths(m_exact, m_fl, m_is_exact, cell):
     qf = m_fl / cell
     if m_is_exact and Fraction(qf) == q:
         return [fl], False, q
+    # The radius is a whole multiple n of the cell size AS WRITTEN (shortest decimal reading of the cell size, e.g. radius 1 over 0.1-wide
+    # cells, n = 10) although the binary double 0.1 is a hair above 1/10: the circle is n cells wide whenever the correctly rounded double
+    # quotient lands in [n, n+1) - the cell one radius away along the axis belongs to it.  (When the double quotient itself falls short,
+    # 0.3/0.1 = 2.9999999999999996, the case stays ambiguous.)
+    if m_is_exact and m_exact / Fraction(Decimal(repr(float(cell)))) == n and n <= qf < n + 1:
+        return [n], False, q
     return sorted({max(n - 1, 0), n}), True, q
 
 
